@@ -18,7 +18,22 @@ def main():
     chk = mod.TheCheck(a.tier, seed)
     if a.replay:
         sys.exit(chk.replay(a.replay) if hasattr(chk, "replay") else replay(chk, a.replay))
-    sys.exit(chk.run())
+    try:
+        rc = chk.run()
+    except Exception:
+        # an internal error of the machinery: the property is not shown to hold on this tree. Say so in
+        # the interface's terms instead of dying with a traceback (which would count as neither).
+        import traceback
+        tb = traceback.format_exc()
+        sys.stderr.write(tb)
+        d = os.path.join(vlib.ROOT, "replays", a.prop)
+        os.makedirs(d, exist_ok=True)
+        path = os.path.join(d, "internal-error.json")
+        json.dump({"kind": "internal-error", "property": a.prop, "detail": "the check raised an exception; no theorem / "
+                   "correspondence result is available for this run", "traceback": tb[-4000:]}, open(path, "w"), indent=1)
+        print("VIOLATION property=%s replay=%s no-failing-input-found" % (a.prop, path))
+        rc = 1
+    sys.exit(rc)
 
 
 def replay(chk, path):
